@@ -111,6 +111,9 @@ def gen_rotvec(r, style):
     if style == "near-pi":
         n = math.pi - r.choice([1e-3, 1e-5, 2e-6, 1e-7, 1e-9, 1e-12, 4e-16])
         return [n * x for x in (axis_dir(r) if r.random() < 0.5 else rand_dir(r))]
+    if style == "tiny":
+        n = r.choice([1e-16, 2.3e-16, 1e-15, 1e-14, 1e-12, 1e-10, 1e-8, 1e-7, 1e-6, 10 ** r.uniform(-17.0, -5.0)])
+        return [n * x for x in rand_dir(r)]
     if style == "zero":
         return r.choice([[0.0, 0.0, 0.0], [-0.0, 0.0, -0.0], [1e-300, 0.0, 0.0], [0.0, 5e-324, 0.0]])
     if style == "quarter":
@@ -119,7 +122,7 @@ def gen_rotvec(r, style):
     raise ValueError(style)
 
 
-RV_STYLES = ["general", "general", "near-cut", "near-cut", "near-pi", "zero"]
+RV_STYLES = ["general", "general", "near-cut", "near-cut", "near-pi", "zero", "tiny"]
 
 
 def normalise(q):
@@ -149,6 +152,9 @@ def gen_quat(r, style):
         s = math.sqrt(1.0 - w * w)
         return [w] + [s * x for x in d]
     if style == "identity":
+        if r.random() < 0.5:
+            q = list(true_exp(gen_rotvec(r, "tiny")))
+            return q if r.random() < 0.5 else [-x for x in q]
         return r.choice([[1.0, 0.0, 0.0, 0.0], [-1.0, 0.0, 0.0, 0.0], [1.0, 1e-9, 0.0, 0.0]])
     raise ValueError(style)
 
@@ -198,10 +204,33 @@ def mean_weights(r, n, style):
     return [x / s for x in w]
 
 
+WIDTHS = [1, 2, 3, 4, 5, 6, 7, 8, 15, 16, 17, 31, 32, 33, 40, 12, 24]      # incl. SIMD / fast-path boundaries
+DIFF_STYLES = ["independent", "close", "coincident", "opposite-cover", "half-turn-apart", "close", "coincident"]
+
+
+def coincident(r, q):
+    """a unit quaternion equal or almost equal to q: bit-identical, renormalised copy, one ulp off, exp(r) * q with |r| from 0
+    through 1e-16 .. 1e-6 (the product q' * conj(q) then has w within an ulp of 1, possibly above it), either sign"""
+    kind = r.choice(["equal", "renormalised", "ulp", "tiny", "tiny", "tiny", "tiny"])
+    if kind == "equal":
+        p = list(q)
+    elif kind == "renormalised":
+        sc = r.choice([1.0 + 2.0 ** -52, 1.0 - 2.0 ** -53, 1.0 + 2.0 ** -51])
+        p = normalise([x * sc for x in q]) if r.random() < 0.5 else [x * sc for x in q]
+    elif kind == "ulp":
+        p = list(q)
+        i = r.randrange(4)
+        p[i] = math.nextafter(p[i], r.choice([-2.0, 2.0]))
+    else:
+        n = r.choice([0.0, 1e-16, 2.3e-16, 5e-16, 1e-15, 3e-15, 1e-14, 1e-13, 1e-12, 1e-10, 1e-8, 1e-7, 1e-6, 10 ** r.uniform(-16.5, -6.0)])
+        p = list(qmul(true_exp([n * x for x in rand_dir(r)]), q))
+    return p if r.random() < 0.75 else [-x for x in p]
+
+
 def gen_phase1(g, n_each):
     r = g.r
     cases = []
-    widths = [1, 2, 3, 4, 5, 6]
+    widths = WIDTHS
     for k in range(n_each):
         n = widths[k % len(widths)]
         st = RV_STYLES[(k // len(widths)) % len(RV_STYLES)]
@@ -219,7 +248,7 @@ def gen_phase1(g, n_each):
     for k in range(n_each):
         n = widths[k % len(widths)]
         m = r.choice([1, 1, 2, 3])
-        st = r.choice(["independent", "close", "close", "opposite-cover", "half-turn-apart"])
+        st = DIFF_STYLES[(k // len(widths)) % len(DIFF_STYLES)]
         qr = [gen_quat(r, r.choice(Q_STYLES)) for _ in range(m)]
         ql = []
         for _ in range(n):
@@ -227,6 +256,8 @@ def gen_phase1(g, n_each):
                 ql.append(gen_quat(r, r.choice(Q_STYLES)))
             elif st == "close":
                 ql.append(list(qmul(true_exp(gen_rotvec(r, r.choice(["near-cut", "general", "zero"]))), qr[0])))
+            elif st == "coincident":
+                ql.append(coincident(r, qr[0]))
             elif st == "opposite-cover":
                 ql.append([-x for x in qmul(true_exp(gen_rotvec(r, r.choice(["near-cut", "general"]))), qr[0])])
             else:
@@ -256,18 +287,18 @@ def gen_mean(g, n_each):
             qs = [gen_quat(r, r.choice(Q_STYLES))]
             w = [1.0]
         elif st == "random":
-            n = r.randint(2, 7)
+            n = r.choice([2, 3, 4, 5, 6, 7, 7, 15, 16, 17, 32, 33, 40])
             qs = [gen_quat(r, "uniform") for _ in range(n)]
             w = mean_weights(r, n, r.choice(["uniform", "positive"]))
         elif st == "clustered":
-            n = r.randint(2, 7)
+            n = r.choice([2, 3, 4, 5, 6, 7, 7, 15, 16, 17, 32, 33, 40])
             c = gen_quat(r, "uniform")
             sp = r.choice([1e-3, 0.1, 0.5, 1.0])
             qs = [list(qmul(true_exp([sp * x for x in gen_rotvec(r, "quarter")]), c)) for _ in range(n)]
             qs = [(q if r.random() < 0.7 else [-x for x in q]) for q in qs]
             w = mean_weights(r, n, r.choice(["uniform", "positive"]))
         elif st == "all-equal":
-            n = r.randint(1, 7)
+            n = r.choice([1, 2, 3, 4, 5, 6, 7, 16, 17, 33, 40])
             q0 = gen_quat(r, r.choice(Q_STYLES))
             qs = [(list(q0) if r.random() < 0.5 else [-x for x in q0]) for _ in range(n)]
             if n % 2 == 1 and n >= 3 and r.random() < 0.4:
@@ -276,7 +307,7 @@ def gen_mean(g, n_each):
                 w = mean_weights(r, n, r.choice(["uniform", "positive"]))
             extra["q0"] = q0
         else:
-            kk = r.randint(1, 3)
+            kk = r.choice([1, 2, 3, 3, 8, 16, 19])
             c = gen_quat(r, r.choice(["uniform", "negative-w", "half-turn"]))
             rs = [gen_rotvec(r, r.choice(["quarter", "quarter", "near-cut"])) for _ in range(kk)]
             qs = [list(c)] + [list(qmul(true_exp(x), c)) for x in rs] + [list(qmul(true_exp([-y for y in x]), c)) for x in rs]
@@ -379,7 +410,7 @@ def chk_exp_like(c, idx, cols, dcols, expected, key, what, P, stats):
     """cols: implementation quaternions; expected: mathematical quaternions (oracle)"""
     for j, q in enumerate(cols):
         if not finite(q):
-            P.append(("prop", key + ":not-finite", "%s: column %d not finite" % (what, j), idx)); continue
+            P.append(("prop", key + ":not-finite", "%s: column %d is %r (expected about %r)" % (what, j, q, expected[j]), idx)); continue
         ud = unit_defect(q)
         stats["max_unit_defect"] = max(stats.get("max_unit_defect", 0.0), ud)
         if ud > 1e-13:
@@ -402,7 +433,7 @@ def chk_log_like(c, idx, cols, dcols, inputs, key, what, P, stats):
     """cols: implementation rotation vectors; inputs: the unit quaternions whose logarithm they should be"""
     for j, v in enumerate(cols):
         if not finite(v):
-            P.append(("prop", key + ":not-finite", "%s: column %d not finite" % (what, j), idx)); continue
+            P.append(("prop", key + ":not-finite", "%s: column %d is %r for the finite argument %r" % (what, j, v, inputs[j]), idx)); continue
         n = vnorm(v)
         if n > math.pi + 1e-12:
             P.append(("prop", key + ":norm-above-pi", "%s: column %d has norm %.17g > pi (q and -q must be the same rotation)" % (what, j, n), idx))
@@ -679,7 +710,7 @@ def run(ctx):
             cases.append(c)
     else:
         cases = witnesses() + load_corpus()
-        for part in (gen_phase1(ctx.gen("convert"), ctx.n(72, 2400)), gen_mean(ctx.gen("mean"), ctx.n(120, 3000))):
+        for part in (gen_phase1(ctx.gen("convert"), ctx.n(119, 2400)), gen_mean(ctx.gen("mean"), ctx.n(120, 3000))):
             off = len(cases)
             for c in part:
                 if "of" in c:
@@ -763,10 +794,10 @@ def run(ctx):
     tight = stats.pop("tight_disagreements", 0)
     ctx.coverage.update({
         "evaluations": len(allcases), "distinct_nontrivial": len(distinct),
-        "rule": "batches of width 1..6 (base quaternion matrices of 1..3 columns, only column 0 read) over styles: rotation vectors general in [0, pi), "
+        "rule": "batches of width 0..8, 12, 15, 16, 17, 24, 31, 32, 33, 40 and means of up to 40 inputs (base quaternion matrices of 1..3 columns, only column 0 read) over styles: rotation vectors general in [0, pi), "
                 "around both cut-offs (norms 5e-5 .. 1e-2 incl. 1e-4 +- 1 ulp, both sides of 2 asin(5e-5), 2e-4 +- 1 ulp and the former sliver up to 2 asin(1e-4)), within 1e-3 .. 4e-16 of pi, zero/subnormal; "
                 "unit quaternions uniform on S^3, w < 0, near identity, vector part at the cut-off 5e-5 +- 1 ulp (and at the former 1e-4), near half turn (|w| from 0 to 1e-3, both signs, -0.0), +-identity; "
-                "differences of independent / close / double-cover / half-turn-apart pairs, each re-run with negated operands; every result fed back through the real "
+                "differences of independent / close / coincident (bit-identical, renormalised, 1 ulp off, exp(r) q with |r| = 0, 1e-16 .. 1e-6) / double-cover / half-turn-apart pairs, each re-run with negated operands; every result fed back through the real "
                 "inverse function (second phase); means: random, clustered, all +-q, symmetric sigma-point layouts with non-negative and with unscented weights, single column, "
                 "each re-run with negated and with permuted inputs. every case is distinct by construction (random draws); distinct = distinct input lines",
         "samples": [lines[0], lines[min(len(lines) - 1, 40)][:400], (p2[0]["line"][:400] if p2 else ""), lines[-1][:400]],
